@@ -58,6 +58,7 @@ func VerifC13AuditLogIngest() {
 	verifrt.Quiesce()
 	cancel()
 	<-done
+	verifrt.KeepOpen(w)
 	verifrt.Reach("c13.auditlog.ingest-returned")
 	verifrt.Assert("c13.auditlog.ingest-error", err != nil)
 }
